@@ -65,7 +65,7 @@ def main():
         # same base commit and same harness sources as /verif and /repo
         head = sh(["git", "-C", "/repo", "rev-parse", "HEAD"]).stdout.strip()
         sh(["git", "-C", REPO, "checkout", "-q", "--detach", head])
-        sh(["rsync", "-a", "--exclude", "target", "--exclude", "Cargo.toml", "--exclude", ".cargo", "/verif/harness/", os.path.join(LAB, "harness") + "/"])
+        sh(["rsync", "-a", "--exclude", "target", "--exclude", "/Cargo.toml", "--exclude", "/.cargo", "/verif/harness/", os.path.join(LAB, "harness") + "/"])
         sh(["cp", "/verif/known_findings.json", os.path.join(LAB, "out", "known_findings.json")])
     for d in dirs:
         d = os.path.abspath(d)
